@@ -2,6 +2,7 @@ package props
 
 import (
 	"context"
+	"encoding/json"
 	"errors"
 	"fmt"
 	"reflect"
@@ -723,6 +724,110 @@ func (p *c14) pokeAll(x *res, adapter string, op c14Op, item val.Item, ctx *runn
 	}
 }
 
+// metadata: the same isolation for what a table IS rather than what it holds. The caller's CreateTableInput /
+// UpdateTableInput (billing mode, key schema, attribute definitions, index projections: strings behind pointers
+// in the SDK v1 structures) is scrambled location by location after the call, and so is a returned table
+// description; the table must describe itself as before, still accept the index creation its billing mode
+// allows and still accept an item of the declared key types.
+func (p *c14) metadata(x *res, adapter string, ctx *runner.Ctx) {
+	spec := adapt.TableSpec{Name: "tblmeta14", Hash: "h", Billing: "PAY_PER_REQUEST", Indexes: []adapt.IndexSpec{
+		{Name: "gsi1", Hash: "g", Proj: "INCLUDE", NonKey: []string{"a", "b"}},
+		{Name: "gsi2", Hash: "g", Range: "s", Proj: "KEYS_ONLY"}}}
+	late := adapt.IndexSpec{Name: "late", Hash: "s", Proj: "INCLUDE", NonKey: []string{"c"}}
+	type stage struct {
+		name string
+		run  func(cl adapt.Client) (interface{}, bool)
+	}
+	describe := func(cl adapt.Client) string {
+		d := cl.Do(adapt.Op{Kind: adapt.OpDescribe, Table: spec.Name})
+		b, _ := json.Marshal(d)
+		return string(b)
+	}
+	stages := []stage{
+		{"input/CreateTable", func(cl adapt.Client) (interface{}, bool) {
+			if adapter == "v1" {
+				in := adapt.V1CreateInput(&spec)
+				_, err := cl.Raw().(*v1client.Client).CreateTable(in)
+				return in, err == nil
+			}
+			in := adapt.V2CreateInput(&spec)
+			_, err := cl.Raw().(*v2client.Client).CreateTable(context.Background(), in)
+			return in, err == nil
+		}},
+		{"output/DescribeTable", func(cl adapt.Client) (interface{}, bool) {
+			if cl.Do(createOp(spec)).Class != adapt.ClsOK {
+				return nil, false
+			}
+			if adapter == "v1" {
+				out, err := cl.Raw().(*v1client.Client).DescribeTable(&v1ddb.DescribeTableInput{TableName: aws.String(spec.Name)})
+				return out, err == nil
+			}
+			out, err := cl.Raw().(*v2client.Client).DescribeTable(context.Background(), &v2ddb.DescribeTableInput{TableName: v2aws.String(spec.Name)})
+			return out, err == nil
+		}},
+		{"output/CreateTable", func(cl adapt.Client) (interface{}, bool) {
+			if adapter == "v1" {
+				out, err := cl.Raw().(*v1client.Client).CreateTable(adapt.V1CreateInput(&spec))
+				return out, err == nil
+			}
+			out, err := cl.Raw().(*v2client.Client).CreateTable(context.Background(), adapt.V2CreateInput(&spec))
+			return out, err == nil
+		}},
+	}
+	for _, st := range stages {
+		cl0 := adapt.New(adapter)
+		root0, ok := st.run(cl0)
+		if !ok || root0 == nil {
+			x.r.Counters["op_not_applicable"]++
+			continue
+		}
+		want := describe(cl0)
+		var locs0 []pokeLoc
+		walkLocs(reflect.ValueOf(root0), "", &locs0, 0)
+		for li := range locs0 {
+			cl := adapt.New(adapter)
+			root, ok := st.run(cl)
+			if !ok {
+				continue
+			}
+			var locs []pokeLoc
+			walkLocs(reflect.ValueOf(root), "", &locs, 0)
+			if li >= len(locs) {
+				continue
+			}
+			loc := locs[li]
+			ctx.Trace("%s %s poke %s", adapter, st.name, loc.path)
+			var panicked interface{}
+			func() {
+				defer func() { panicked = recover() }()
+				loc.poke()
+			}()
+			if panicked != nil {
+				continue
+			}
+			x.r.Evals++
+			x.r.Counters["metadata_pokes"]++
+			x.fp(true, "%s|meta|%s|%s", adapter, st.name, pathKinds(loc.path))
+			wit := map[string]interface{}{"adapter": adapter, "operation": st.name, "poked_location": loc.path}
+			if got := describe(cl); got != want {
+				x.viol("metadata-shared", adapter+"/"+st.name+"/"+lastKind(loc.path), fmt.Sprintf("[%s] after %s, changing %s of the caller's structure changed the table's description: %s, was %s", adapter, st.name, loc.path, got, want), wit)
+				continue
+			}
+			// the table still behaves as declared: on-demand billing lets an index be created without throughput,
+			// and an item with the declared key types is accepted and indexed
+			l := late
+			if o := cl.Do(adapt.Op{Kind: adapt.OpAddIndex, Table: spec.Name, Ix: &adapt.IndexSpec{Name: "late", Hash: "s"}}); o.Class != adapt.ClsOK {
+				x.viol("metadata-shared", adapter+"/"+st.name+"/"+lastKind(loc.path)+"/addindex", fmt.Sprintf("[%s] after %s, changing %s of the caller's structure made a later index creation fail: %s %s", adapter, st.name, loc.path, o.Class, o.Msg), wit)
+				continue
+			}
+			_ = l
+			if o := cl.Do(adapt.Op{Kind: adapt.OpPut, Table: spec.Name, Item: val.Item{"h": val.Str("k"), "g": val.Str("x"), "s": val.Str("y")}}); o.Class != adapt.ClsOK {
+				x.viol("metadata-shared", adapter+"/"+st.name+"/"+lastKind(loc.path)+"/put", fmt.Sprintf("[%s] after %s, changing %s of the caller's structure made a well-typed PutItem fail: %s %s", adapter, st.name, loc.path, o.Class, o.Msg), wit)
+			}
+		}
+	}
+}
+
 func lastKind(p string) string {
 	k := pathKinds(p)
 	if i := strings.LastIndex(k, "/"); i >= 0 {
@@ -838,6 +943,9 @@ func (p *c14) RunCase(ctx *runner.Ctx) runner.CaseResult {
 	case c < ni*no*2+ni*2:
 		k := c - ni*no*2
 		p.heldResults(x, adapt.Adapters[k%2], c14ItemList[k/2], ctx)
+		if k/2 == 0 {
+			p.metadata(x, adapt.Adapters[k%2], ctx)
+		}
 	default:
 		idx := c - ni*no*2 - ni*2
 		r := mon.Rng(ctx.Seed, "C14", idx)
